@@ -107,6 +107,9 @@ def programs(seed, n, syms=gen.SYMS, tids=None):
         twin(steps, "add", {}, [lazy, lazy], ["xs", "xs"], "ad")
         twin(steps, "add", {}, [lazy, "xs"], ["xs", lazy], "ad2")
         twin(steps, "sub", {}, [lazy, "xs"], ["xs", lazy], "sb")
+        steps.append({"op": "smul", "in": ["xs"], "out": ["xs3"], "args": {"k": [3, 0]}})
+        twin(steps, "sub", {}, [lazy, "xs3"], ["xs", "xs3"], "sb3")
+        twin(steps, "sub", {}, ["xs3", lazy], ["xs3", "xs"], "sb3r")
         twin(steps, "mul", {}, [lazy, lazy], ["xs", "xs"], "ml")
         inputs = {"x0": x}
         inputs.update(inputs_extra)
